@@ -35,6 +35,16 @@ func runPlaceCase(c *placeCase) {
 	for _, id := range c.Members {
 		conn.AddNode(id, fmt.Sprintf("addr-%d", id))
 	}
+	// nodes that joined and left again before the dataset is created are not current members: one of them was dialled
+	// while it was a member (a cached connection), the others never were
+	for k := 0; k < int(uint64(c.Seed)%3); k++ {
+		gone := uint64(900 + k)
+		conn.AddNode(gone, "127.0.0.1:1")
+		if k == 1 {
+			conn.Dial(gone)
+		}
+		conn.RemoveNode(gone)
+	}
 	rand.Seed(c.Seed)
 	panicked, _ := recoverPanic(func() {
 		c.Obs = storage.VerifPlacement(conn, uint(c.P), uint(c.R))
@@ -150,7 +160,7 @@ func u64List(xs []uint64) string {
 
 func runC16(a *args) error {
 	r := newRng(a.seed)
-	st := newStats("N in 1..16 members, R in 1..8, P in 1..64 (quick: P <= 24), seeded math/rand; draws recovered by replaying the seed; for every fourth case the real DatasetManager.Create runs (N+12.. partitions) and the replica assignment it stores is checked for validity and for period-d repetition; non-trivial = P >= 2 and N >= 2; distinct by (N,P,R,seed)")
+	st := newStats("N in 1..16 members (plus 0..2 nodes that joined and left again, dialled or not), R in 1..8, P in 1..64 (quick: P <= 24), seeded math/rand; draws recovered by replaying the seed; for every fourth case the real DatasetManager.Create runs (N+12.. partitions) and the replica assignment it stores is checked for validity and for period-d repetition; non-trivial = P >= 2 and N >= 2; distinct by (N,P,R,seed)")
 	var cases []placeCase
 	if a.replay != "" {
 		var c placeCase
